@@ -7,6 +7,7 @@ are mixed in from exprs.py, stmts.py, calls.py and contracts.py.
 from __future__ import annotations
 
 import ast
+import os
 from typing import List, Optional
 
 import z3
@@ -15,7 +16,7 @@ from . import smt
 from .smt import (AND, FALSE, I, NOT, OR, S, TRUE, Val, b_of, boolv, i_of, intv, is_bool, is_int, is_none, is_ref,
                   is_str, none, r_of, ref, s_of, strv)
 from .source import ClassInfo, FuncInfo, SourceIndex
-from .values import (SV, Args, BoolTermV, BoundV, BuiltinV, ClassV, Frame, FuncV, LambdaV, ModuleV, Out, RawV,
+from .values import (PropV, SV, Args, BoolTermV, BoundV, BuiltinV, ClassV, Frame, FuncV, LambdaV, ModuleV, Out, RawV,
                      SeqTermV, St, SuperV, TupleV, Unsupported, V)
 
 CONTAINER_CLASSES = ('dict', 'list', 'tuple', 'set', 'frozenset')
@@ -105,6 +106,8 @@ class EngineBase:
         if isinstance(v, ClassV):
             mc = 'type'
             return z3.BoolVal(q in ('type', 'object') or (v.ci.metaclass is not None and q.endswith(v.ci.metaclass.split('.')[-1])))
+        if isinstance(v, PropV):
+            return z3.BoolVal(q in ('property', 'object'))
         if isinstance(v, (FuncV, LambdaV)):
             return z3.BoolVal(q in ('function', 'object'))
         if isinstance(v, BoundV):
@@ -165,6 +168,8 @@ class EngineBase:
             return o.term
         if isinstance(v, BuiltinV):
             return ref(I(self.const_id('builtin:' + v.name)))
+        if isinstance(v, PropV):
+            return ref(I(self.const_id('property:' + v.getter.qualname)))
         if isinstance(v, ModuleV):
             return ref(I(self.const_id('module:' + v.name)))
         if isinstance(v, BoolTermV):
@@ -279,11 +284,12 @@ class EngineBase:
         asserts = self.global_axioms + st.pc + ([extra] if extra is not None else [])
         return smt.quick_feasible(asserts)
 
-    def entails(self, st: St, goal) -> bool:
+    def entails(self, st: St, goal, timeout_ms=400) -> bool:
         """cheap check pc => goal (True only if proved)"""
         self.stats['feas_checks'] += 1
         s = z3.Solver()
         s.set('rlimit', 2000000)
+        s.set('timeout', timeout_ms)
         for a in self.global_axioms + st.pc:
             s.add(a)
         s.add(NOT(goal))
@@ -312,6 +318,10 @@ class EngineBase:
         return o
 
     def raise_new(self, st: St, qualname: str, msg=None) -> Out:
+        if os.environ.get('PYVC_TRACE_RAISE') == qualname:
+            import traceback
+            print('RAISE', qualname, 'from:')
+            traceback.print_stack(limit=int(os.environ.get('PYVC_TRACE_DEPTH', '6')))
         st = st.copy()
         e = self.make_exc(st, qualname, msg)
         return Out('raise', st, e)
@@ -364,6 +374,11 @@ class EngineBase:
     def py_eq_term(self, st: St, a: V, b: V):
         """z3 Bool for a == b where neither side's class defines __eq__ (checked by caller).
         Primitives structurally; bool/int cross-compare numerically; objects by identity."""
+        if isinstance(a, SV) and isinstance(b, SV) and a.kind == 'str' and b.kind == 'str':
+            return smt.simp(s_of(a.term)) == smt.simp(s_of(b.term))
+        if isinstance(a, SV) and isinstance(b, SV) and 'str' in (a.kind, b.kind) or \
+                isinstance(a, SV) and isinstance(b, SV) and 'none' in (a.kind, b.kind):
+            return self.to_term(st, a) == self.to_term(st, b)
         ta, tb = self.to_term(st, a), self.to_term(st, b)
         num = lambda t: z3.If(is_bool(t), z3.If(b_of(t), I(1), I(0)), i_of(t))
         isnum = lambda t: OR(is_int(t), is_bool(t))
